@@ -186,6 +186,12 @@ class TcpConnection(
         self._spool += data
 
         while True:
+            if self._transport is None or self._transport.is_closing():
+                # An Abort was sent or a Release / Abort was processed: what
+                # follows in the stream is not to be acted on any more, no
+                # matter whether it arrived in the same chunk or a later one.
+                return
+
             msglen = _extract_message_size(self._spool)
             if msglen is None:
                 break
